@@ -73,8 +73,10 @@ class G:
             self.f.add("lit:date")
             return self.pick(("CAST('2020-01-01' AS DATE)", "CAST('2021-12-31 23:59:59' AS TIMESTAMP)"))
         if k == 11:
-            self.f.add("lit:interval")
-            return f"INTERVAL '{self.i(1, 30)}' {self.pick(('DAY', 'MONTH', 'YEAR', 'HOUR'))}"
+            # interval literals only appear as the last +/- term of an arithmetic chain (see arith): INTERVAL followed
+            # by further arithmetic is parsed as interval arithmetic, which is dialect-specific and not core grammar
+            self.f.add("lit:int")
+            return str(self.i(0, 30))
         if k == 12:
             self.f.add("lit:negative")
             return f"(-{self.i(1, 99)})"
@@ -165,6 +167,9 @@ class G:
         if len({p for p in parts[1::2]}) > 1:
             self.f.add("mixed-precedence")
         s = " ".join(parts)
+        if self.b(1, 12) and not any(p in ("||", "%", "*", "/") for p in parts[1::2]):
+            self.f.add("lit:interval")
+            return f"{s} {self.pick(('+', '-'))} INTERVAL '{self.i(1, 30)}' {self.pick(('DAY', 'MONTH', 'YEAR', 'HOUR'))}"
         if self.b(1, 6):
             self.f.add("op:neg")
             return f"- ({s})" if len(parts) > 1 else f"- {s}" if not s.startswith(("-", "(-")) else s
